@@ -18,6 +18,7 @@ package objectz
 
 import (
 	"github.com/openziti/storage/ast"
+	"reflect"
 	"time"
 )
 
@@ -85,7 +86,9 @@ func (self *ObjectCursor[T]) EvalDatetime(name string) *time.Time {
 }
 
 func (self *ObjectCursor[T]) IsNil(name string) bool {
-	return nil == self.eval(name)
+	// symbols return typed pointers; an interface holding a typed nil pointer is not == nil
+	val := self.eval(name)
+	return val == nil || reflect.ValueOf(val).IsNil()
 }
 
 func (self *ObjectCursor[T]) OpenSetCursor(name string) ast.SetCursor {
